@@ -87,6 +87,58 @@ def call_program(ps, out, sigstr, style):
     return pt.Seq(*stmts, call, pt.Int(1))
 
 
+_TXN = {"pay": "Payment", "axfer": "AssetTransfer", "appl": "ApplicationCall"}
+
+
+def ill_typed(chk, rnd):
+    import c19
+    types, gres = abitypes.gen("assign", 0, "c14ill")
+    chk.add_tlc(gres)
+    if gres.error:
+        chk.machinery_failure("ARC4Gen failed: " + gres.error + gres.out[-800:])
+    specs = [abitypes.to_spec(t["t"]) for t in types]
+
+    def attempt(sig, args):
+        try:
+            pt.InnerTxnBuilder.MethodCall(app_id=pt.Int(1), method_signature=sig, args=args)
+            return 1
+        except abitypes.replay.PYTEAL_ERRORS:
+            return 0
+        except (TypeError, AttributeError, KeyError, ValueError) as e:      # refusing with a Python error is still refusing (C20 judges the class)
+            return 0
+    entries, descr = [], []
+    for j, tb in enumerate(types):
+        sig = "f(%s)void" % tb["sig"]
+        for i, ta in enumerate(types):
+            k = ta["t"]["k"]
+            if k == "txn":
+                if ta["t"]["s"] not in _TXN:
+                    continue
+                arg, argk = {pt.TxnField.type_enum: getattr(pt.TxnType, _TXN[ta["t"]["s"]])}, "txn"
+            else:
+                arg, argk = specs[i].new_instance(), ("refobj" if k == "ref" else "abi")
+            entries.append({"site": "itxn", "a": ta["t"], "b": tb["t"], "argk": argk, "built": attempt(sig, [arg])})
+            descr.append("%s passed for %s" % (ta["sig"], sig))
+        for argk, mk in (("bytes", lambda: [pt.Bytes("a")]), ("uint", lambda: [pt.Int(1)]), ("other", lambda: [5]), ("other", lambda: ["a"]),
+                         ("count", lambda: []), ("count", lambda: [pt.Bytes("a"), pt.Bytes("a")])):
+            entries.append({"site": "itxn", "a": tb["t"], "b": tb["t"], "argk": argk, "built": attempt(sig, mk())})
+            descr.append("%s argument %r passed for %s" % (argk, [str(x) for x in mk()], sig))
+    verdicts, tres, errors = c19.run_assign(entries, "c14ill")
+    for r in tres:
+        chk.add_tlc(r)
+    for e in errors:
+        chk.machinery_failure(e)
+    hist = {}
+    for idx, c in sorted(verdicts.items()):
+        hist[c] = hist.get(c, 0) + 1
+        if not c.startswith("ok"):
+            chk.report("C14/%s/%s" % (c, descr[idx]), "%s: accepted when the inner call was built although it does not fit the signature" % descr[idx], {"entry": entries[idx]})
+    chk.notes["ill_typed_attempts"] = {"attempts": len(entries), "verdicts": hist}
+    if not hist.get("ok-fits") or not hist.get("ok-rejected"):
+        chk.machinery_failure("ill-typed attempt stream is degenerate: %r" % hist)
+    return hist.get("ok-rejected", 0)
+
+
 def main():
     if os.environ.get("VERIF_REPLAY"):
         print("replay: re-run ./check C14 (programs are rebuilt from the signature catalogue)")
@@ -127,17 +179,9 @@ def main():
                 entries.append(e)
                 metas.append(meta)
                 descr.append("%s values#%d %s" % (sigstr, req["vj"], style))
-    # ill-typed arguments are rejected at build time
-    bad = 0
-    for sigstr, mk in (("f(uint64)void", lambda: [abi.Uint8()]), ("f(string)void", lambda: [abi.Uint64()]), ("f(uint8[3])void", lambda: [abi.StaticArrayTypeSpec(abi.Uint8TypeSpec(), 4).new_instance()]),
-                       ("f((uint8,string))void", lambda: [abi.TupleTypeSpec(abi.Uint8TypeSpec(), abi.Uint8TypeSpec()).new_instance()]), ("f(pay)void", lambda: [{pt.TxnField.type_enum: pt.TxnType.AssetTransfer}]),
-                       ("f(account)void", lambda: [pt.Int(1)]), ("f(asset)void", lambda: [pt.Bytes("a")]), ("f(uint64,uint64)void", lambda: [abi.Uint64()]),
-                       ("f(uint64)void", lambda: [pt.Int(5)])):
-        try:
-            pt.InnerTxnBuilder.ExecuteMethodCall(app_id=pt.Int(1), method_signature=sigstr, args=mk())
-            chk.report("C14/ill-typed-argument-accepted/%s" % sigstr, "an argument that does not fit %s was accepted" % sigstr, {"sig": sigstr})
-        except abitypes.replay.PYTEAL_ERRORS:
-            bad += 1
+    # arguments that do not fit the signature are rejected at build time: every ordered pair of the 'assign' universe
+    # (value type x parameter type) plus plain expressions / non-expressions / wrong argument counts, judged by Assign.tla
+    bad = ill_typed(chk, rnd)
     verdicts, tres, errors = pipeline.run_refine(entries, "c14", max_steps=30000, chunks=8, workers_per=2)
     for r in tres:
         chk.add_tlc(r)
